@@ -1,6 +1,7 @@
 import Ypv.Drv.Codec
 import Ypv.Model.Diff
 import Ypv.Spec.Diff
+import Ypv.Model.DiffRules
 /-! Driver handler for C06: the Differ model and its specification
 
 * `{"op":"C06.diff","l":doc,"r":doc,"arr":"position"|"value","aoh":"position"|…}` ↦
@@ -10,6 +11,9 @@ import Ypv.Spec.Diff
 * `{"op":"C06.sync","how":"value"|"key","xs":[doc…],"ys":[doc…]}` ↦ `{"pairs":[[li|null,ri|null]…]}`
 * `{"op":"C06.mode","ruleA":…,"cliA":…,"dfltA":…,"ruleH":…,"cliH":…,"dfltH":…}` ↦ `{"arr":…,"aoh":…}`
 * `{"op":"C06.tables"}` ↦ enum name tables.
+* `{"op":"C06.diffRules","l":doc,"r":doc,"arr":…,"aoh":…,"rules":[[addr,text]…],"keys":[[addr,text]…]}` ↦
+  `{"rep":[entry…]}` | `{"crash":"nameError"|"keyError"}` — the per-path model (`Model/DiffRules.lean`); the addresses
+  are those of the nodes of `r` that `DifferConfig.prepare` matched, in the order of its dictionaries.
 -/
 namespace Ypv.Drv.C06
 open Lean (Json)
@@ -49,8 +53,22 @@ def optMode {α : Type} (f : String → Except String α) (j : Json) (k : String
   | .ok s => do pure (some (← f s))
   | .error _ => pure none
 
+def ruleList (j : Json) (k : String) : Except String (List (Addr × Str)) := do
+  (← getArr j k).toList.mapM fun e => do
+    match e with
+    | .arr #[a, t] => pure (← addrOfJson a, s2l (← t.getStr?))
+    | _ => throw "rule entry"
+
 def handle (op : String) (j : Json) : Except String Json := do
   match op with
+  | "diffRules" =>
+    let l ← nodeOfJson (← j.getObjVal? "l")
+    let r ← nodeOfJson (← j.getObjVal? "r")
+    let c : Cfg := ⟨← arrOfName (← getStr j "arr"), ← aohOfName (← getStr j "aoh")⟩
+    match Rules.report c (← ruleList j "rules") (← ruleList j "keys") l r with
+    | .ok rep => pure (Json.mkObj [("rep", Json.arr (rep.map entryToJson).toArray)])
+    | .error .nameError => pure (Json.mkObj [("crash", "nameError")])
+    | .error .keyError => pure (Json.mkObj [("crash", "keyError")])
   | "diff" =>
     let l ← nodeOfJson (← j.getObjVal? "l")
     let r ← nodeOfJson (← j.getObjVal? "r")
